@@ -20,7 +20,6 @@ import (
 	mh "github.com/multiformats/go-multihash"
 
 	"verif/harness/internal/core"
-	"verif/harness/internal/sched"
 )
 
 // stress (C05 / C06 free-running histories): the store runs as in production
@@ -45,6 +44,7 @@ type stressScen struct {
 	PL       int64 `json:"pl"`
 	IL       int64 `json:"il"`
 	OwnGC    bool  `json:"owngc"` // let the store's own collectors run with a 2 ms interval
+	Buckets  int   `json:"buckets"` // number of adjacent buckets the keys are spread over (default 4)
 	Gate     bool  `json:"gate"`  // every segment of a GC cycle between two yield points excludes foreground calls (closes the windows of the known findings KF-C06-*)
 }
 
@@ -77,9 +77,12 @@ type stressEv struct {
 	e     string
 }
 
+var stressBuckets = 4
+
 func stressKey(i int) []byte {
-	// 4 adjacent buckets, long shared prefixes inside a bucket
-	d := []byte{byte(40 + i%4), 7, 7, byte(i / 64), 9, byte((i / 4) % 4), byte(i / 16), byte(i)}
+	// adjacent buckets, long shared prefixes inside a bucket
+	nb := stressBuckets
+	d := []byte{byte(40 + i%nb), 7, 7, byte(i / 64), 9, byte((i / nb) % 4), byte(i / 16), byte(i)}
 	m, _ := mh.Encode(d, mh.SHA2_256)
 	return m
 }
@@ -103,6 +106,9 @@ func stressParse(k int, b []byte) int {
 }
 
 func stressOne(dir string, tr *core.Tracer, sc *stressScen) error {
+	if sc.Buckets > 0 {
+		stressBuckets = sc.Buckets // all scenarios of one run use the same value
+	}
 	d, err := os.MkdirTemp(dir, "st")
 	if err != nil {
 		return err
@@ -161,23 +167,19 @@ func stressOne(dir string, tr *core.Tracer, sc *stressScen) error {
 			}
 		}()
 	}
-	// gate: foreground calls hold it shared; a collector holds it exclusively from one yield
-	// point of its cycle to the next, so its steps still interleave with calls and with the
-	// flusher, but never run WHILE a call is between its index lookup and its primary read
+	// gate: foreground calls hold it shared; a collector holds it exclusively for one cycle, so a
+	// cycle never runs WHILE a call is between its index lookup and its primary read (the windows
+	// of the two known findings); cycles still overlap with flushes and with each other
 	var gate sync.RWMutex
 	gated := func(cycle func()) {
 		if !sc.Gate {
 			cycle()
 			return
 		}
+		// a whole cycle excludes foreground calls (per-segment gating starved the collectors: they
+		// completed almost no cycles); collector vs flusher and collector vs collector stay free
 		gate.Lock()
-		off := sched.OnPoint(func(string) {
-			gate.Unlock()
-			time.Sleep(20 * time.Microsecond)
-			gate.Lock()
-		})
 		cycle()
-		off()
 		gate.Unlock()
 	}
 	enter := func() {
@@ -234,7 +236,12 @@ func stressOne(dir string, tr *core.Tracer, sc *stressScen) error {
 			}
 			ver := map[int]int{}
 			for i := 0; i < sc.Writes; i++ {
+				// skewed: most writes go to a fifth of the keys, so index and primary files hold a mix of
+				// short-lived and long-lived records (collectors then free, merge and truncate piecemeal)
 				k := mine[rng.Intn(len(mine))]
+				if rng.Intn(5) != 0 {
+					k = mine[rng.Intn(1+len(mine)/5)]
+				}
 				ver[k]++
 				v := ver[k]
 				if rng.Intn(5) == 0 {
